@@ -873,6 +873,17 @@ func (e *factEngine) intrinsic(v ssa.Value, depth int) factSet {
 						f[k] = true
 					}
 				}
+				// a variable captured by a closure lives in a cell with several
+				// stores: meet, over the stores that can reach this load, of the
+				// facts of the stored value plus the guards on loads of the
+				// cell that every path from that store to this load passes
+				if len(stored) > 1 && depth < 4 && cellOnlyStoredHere(cell) {
+					if mf := e.cellFacts(cell, x, depth); mf != nil {
+						for k := range mf {
+							f[k] = true
+						}
+					}
+				}
 			}
 		}
 	}
@@ -887,7 +898,7 @@ func (e *factEngine) shift(inner factSet, n int64, out factSet) {
 			if lo, err := parseInt(k[4:]); err == nil && (n <= 0 || lo <= math.MaxInt64-n) && (n >= 0 || lo >= math.MinInt64-n) {
 				// a lower bound survives an addition only if the sum cannot wrap:
 				// require a constant upper bound on x as well when n > 0
-				if n <= 0 || hasConstHi(inner) {
+				if n <= 0 || hasConstHi(inner) || hasLenBound(inner) {
 					out.add("lo>=" + fmtInt(lo+n))
 				}
 			}
